@@ -215,7 +215,8 @@ def ioName (ioMap : List (Name × List Name)) (x : Name) (t : Nat) : Name := ((i
 /-- creation of the per-step io node for `x` -/
 def unrollIO (c : Circuit) (stateIO : List (Name × Name)) (pfx : String) (itr : Nat) (s : UState) (x : Name) : E UState :=
   uidE c (x ++ "_" ++ pfx ++ "_" ++ toString itr) >>= fun newIO =>
-  let t := if stateIO.any (fun p => p.1 == x || p.2 == x) then "buf"
+  -- only state *inputs* are forced to buffers; a state output that is itself a primary input stays an input (fix K33)
+  let t := if stateIO.any (fun p => p.2 == x) then "buf"
            else if c.inputs.contains x then "input" else "buf"
   addC s.1 { n := newIO, ty := t, output := c.isOut x } >>= fun uc =>
   pure (uc, s.2.map (fun p => if p.1 == x then (p.1, p.2 ++ [newIO]) else p))
